@@ -535,10 +535,20 @@ class Queue(Greenlet):
         self.wake.clear()
         self.queued_lock.acquire()
         try:
-            # Work on the live timetable, like the scheduler does: what is
-            # added while a bounded store pool makes us wait is flushed as
-            # well, instead of being wiped afterwards.
-            self._check_ready(float('inf'))
+            # Flush what is waiting right now, once. Spawning into a bounded
+            # store pool may yield: what is put on the timetable meanwhile
+            # (an announced message, a message that has just failed again)
+            # stays there with the time it was given.
+            pending, self.queued = self.queued, []
+            done = 0
+            try:
+                for timestamp, entry_id in pending:
+                    self.queued_ids.discard(entry_id)
+                    done += 1
+                    self._dispatch(entry_id)
+            finally:
+                for entry in pending[done:]:
+                    bisect.insort(self.queued, entry)
         finally:
             self.queued_lock.release()
 
